@@ -48,8 +48,15 @@ Matches(p) == /\ p.parse = 1 /\ p.qid \in DOMAIN kq
               /\ p.qt = kq[p.qid].qt /\ p.qc = 1
               /\ (IF kcfg.dns0x20 = 1 /\ ~kq[p.qid].tcp THEN p.name = kq[p.qid].name ELSE p.lname = kq[p.qid].lname)
 
+(* Several datagrams read from one connection by one processing call are processed after all of them were read, each
+   after the callbacks of the previous one, and not at all after a connection failure.  This facet judges responses
+   when they are read; a history in which a second datagram is read straight after another one is judged only up to
+   that point (the batch rules are part of the Retry and Accept facets). *)
+SecondOfBatch(e) == /\ l > 1 /\ Tr[l - 1].e = "sk" /\ Tr[l - 1].op = "recv" /\ Tr[l - 1].res = "ok"
+                    /\ "pid" \in DOMAIN Tr[l - 1] /\ Tr[l - 1].fd = e.fd
 HRecv(e) ==
   IF e.res # "ok" \/ "pid" \notin DOMAIN e \/ e.fd \notin DOMAIN kfd THEN Skip
+  ELSE IF SecondOfBatch(e) THEN Stop
   ELSE IF e.fromok = 0 \/ ~Matches(e) THEN Skip
   ELSE LET rec == kq[e.qid]
            s == kfd[e.fd].srv       \* the cookie state consulted is that of the connection's server
